@@ -36,12 +36,14 @@ ASSUMPTIONS = ['only templates whose operators are opened and closed within one 
 BUDGET = {'quick': 50, 'thorough': 700}
 QUOTA = {'quick': 120, 'thorough': 2500}
 KASSIGN = {'quick': 6, 'thorough': 60}
-REQUIRED = {'quick': {'evaluations': 1500, 'decodes_compiled_compared': 1500, 'decodes_reloaded_compared': 1500,
-                      'encodes_compared': 1000, 'tabled_programs': 150, 'history_steps': 300, 'evictions_seen': 20,
-                      'loop_programs': 500, 'operator_programs': 300, 'marker_programs': 100, 'version_collision_steps': 500, 'cli_compile_runs': 40},
-            'thorough': {'evaluations': 40000, 'decodes_compiled_compared': 40000, 'decodes_reloaded_compared': 40000,
-                         'encodes_compared': 25000, 'tabled_programs': 1200, 'history_steps': 8000, 'evictions_seen': 500,
-                         'loop_programs': 12000, 'operator_programs': 8000, 'marker_programs': 3000}}
+REQUIRED = {'quick': {'evaluations': 1500, 'decodes_compiled_compared': 1300, 'decodes_reloaded_compared': 1300,
+                      'encodes_compared': 1000, 'tabled_programs': 120, 'history_steps': 300, 'evictions_seen': 20,
+                      'loop_programs': 500, 'operator_programs': 300, 'marker_programs': 100,
+                      'version_collision_steps': 500, 'cli_compile_runs': 32},
+            'thorough': {'evaluations': 34000, 'decodes_compiled_compared': 18000, 'decodes_reloaded_compared': 18000,
+                      'encodes_compared': 18000, 'tabled_programs': 490, 'history_steps': 8000, 'evictions_seen': 500,
+                      'loop_programs': 12000, 'operator_programs': 8000, 'marker_programs': 3000}}
+
 
 EXTRA_SHAPES = [
     ('marker-after-203000', [12001, 4024, 203012, 12001, 203255, 12001, 203000, 223000, 101000, 31001, 31031, 101000, 31001, 223255]),
